@@ -8,8 +8,9 @@ git -C /repo worktree add -q $WT HEAD || exit 2
 cp /repo/config.h $WT/config.h
 (cd $WT && git apply $P) || { echo "$ID APPLY-FAILED"; exit 2; }
 mkdir -p $WT/.verif/out/md $WT/.verif/evidence
+cp -r /verif/spec $WT/.verif/spec     # frozen copy: the specification may be edited while the trial runs
 for c in "$@"; do
-  ( cd /verif && REPO=$WT VERIF_BUILD=$WT/.verif/build VERIF_OUT=$WT/.verif/out VERIF_EVID=$WT/.verif/evidence timeout 1500 ./verif check $c ${TIER:-quick} > $WT/.verif/$c.log 2>&1; echo $? > $WT/.verif/$c.rc )
+  ( cd /verif && REPO=$WT VERIF_SPEC=$WT/.verif/spec VERIF_BUILD=$WT/.verif/build VERIF_OUT=$WT/.verif/out VERIF_EVID=$WT/.verif/evidence timeout 1500 ./verif check $c ${TIER:-quick} > $WT/.verif/$c.log 2>&1; echo $? > $WT/.verif/$c.rc )
   echo "$ID $c rc=$(cat $WT/.verif/$c.rc) $(grep -c '^VIOLATION' $WT/.verif/$c.log) violation lines: $(grep '^VIOLATION' $WT/.verif/$c.log | head -2 | tr '\n' ' ') $(grep -A1 '^VIOLATION' $WT/.verif/$c.log | grep -v '^VIOLATION' | head -1 | cut -c1-220)"
   mkdir -p /verif/out/seedlogs; cp $WT/.verif/$c.log /verif/out/seedlogs/$ID-$c.log
 done
